@@ -75,6 +75,9 @@ class Options(Model):
       return OPT(self.section, ip.atom(opt))
     raise PyRaise(ExcVal('KeyError', (opt,)))
 
+  def py___contains__(self, ip, opt):
+    return HAS(self.section, ip.atom(opt))
+
 
 def dict_of_hook(ip, v):
   if isinstance(v, OptionItems):
